@@ -264,6 +264,9 @@ class ComposeFlows:
             for ac in (True, False):
                 for what in ("affine", "zero-v", "zero-u"):
                     yield {"D": D, "align_corners": ac, "what": what}
+        # batches of more than one pair of fields
+        for what in ("zero-v", "zero-u"):
+            yield {"D": 2, "align_corners": True, "what": what, "batch": 2}
 
     def run(self, case, K):
         from deepali.core.flow import compose_flows
@@ -286,7 +289,7 @@ class ComposeFlows:
             K.ensure_eq("compose", r, want, text=Q13C)
             K.ensure_eq("mustfail", r, affine_disp(SG.matmul(Pu, Pv), [E.add(SG.matvec(Pu, tv)[i], tu[i]) for i in range(D)], shape, ac), text="composition order", must_fail=True)
             return
-        ew = K.reals("w", (1, D) + shape)
+        ew = K.reals("w", (case.get("batch", 1), D) + shape)
         zero = np.full(ew.shape, E.ZERO, dtype=object)
         if case["what"] == "zero-v":
             # u must keep the lattice inside the hull for the statement to apply: use the zero-displacement limit u arbitrary small? no:
